@@ -124,12 +124,12 @@ class Rig:
     def compatible(sc):
         """flavours that can realise this script"""
         outs = [(c["o"], tuple(c["a"]) if isinstance(c["a"], list) else ()) for c in sc]
-        fl = ["cls", "gen", "fn", "dz", "bm"]
+        fl = ["cls", "gen", "re", "fn", "dz", "bm"]
         for i, (o, a) in enumerate(outs):
             if o == "r" and a != ("T",):
                 fl = [f for f in fl if f != "cls"]          # plain recur can only finish by returning True
             if o == "k":
-                fl = [f for f in fl if f in ("cls", "gen")]  # function doers are user code (bareDo: except Exception)
+                fl = [f for f in fl if f in ("cls", "gen", "re")]  # function doers are user code (bareDo: except Exception)
         return fl
 
     # -- events
@@ -237,8 +237,9 @@ class Rig:
                     rig.ev("exit", d)
                     rig.on_exit(d)
             return L(tock=0.0)
-        if fl == "gen":
-            class Gn(doing.Doer):
+        if fl in ("gen", "re"):
+            # "gen": a Doer whose recur is a generator method; "re": the library's ReDoer (its do() delegates with yield from)
+            class Gn(doing.Doer if fl == "gen" else doing.ReDoer):
                 def enter(self, *, temp=None):
                     rig.ev("enter", d)
                     self._o, self._a = rig.enter_choice(d)
@@ -396,7 +397,7 @@ def expected_done(cfg, beh, flav):
         if cfg["kind"].get(d) != "leaf" or not isinstance(sc, list) or not sc:
             continue
         last = sc[-1]
-        if flav.get(d) == "gen" and last["o"] == "r" and list(last["a"]) == ["N"]:
+        if flav.get(d) in ("gen", "re") and last["o"] == "r" and list(last["a"]) == ["N"]:
             exp[d] = "N"     # Doer with generator recur assigns done = <returned value> itself
         if flav.get(d) == "cls" and sc[0]["o"] == "r":
             exp[d] = "T"     # plain Doer can only finish in enter by setting done True
